@@ -1228,6 +1228,12 @@ namespace {
 struct PmCaseEnd {
 	PmCaseEnd() {
 		RegisterCaseEnd([]() {
+			// round 6: connections, additional users (no-ops unless the case used them)
+			for (auto& kv : l_Conns) PmDestroyConn(*kv.second);
+			l_Conns.clear();
+			for (auto& u : l_AUsers) { if (u != l_User && ApiUser::GetByName(u->GetName()) == u) RemoveObject(u); }
+			if (l_User && ApiUser::GetByName(l_User->GetName()) != l_User) l_User = nullptr;   // already removed by pm_udel
+			l_AUsers.clear();
 			// services first, then hosts, then the user
 			for (auto it = l_Objs.rbegin(); it != l_Objs.rend(); ++it)
 				if ((*it)->GetReflectionType()->GetName() == "Service") RemoveObject(*it);
